@@ -13,7 +13,16 @@ TRAIT = "ISocketConnection"
 NS = 1_000_000_000
 
 
-def sca_send_timeouts(h):
+URING = "io_uring_backend::zmtp_handler::ZmtpSmartConnection"
+
+
+def uring_send_timeouts(h):
+    """the same obligations for the io_uring backend's connection interface (MIR dump built with --features io-uring):
+    the two backends must treat SNDTIMEO alike"""
+    return sca_send_timeouts(h, conn=URING)
+
+
+def sca_send_timeouts(h, conn=None):
     prog = h.it.prog
     mode = h.choose(3, "sndtimeo")                  # 0: -1 (None), 1: 0, 2: positive
     if mode == 0:
@@ -28,9 +37,17 @@ def sca_send_timeouts(h):
     from ..models import _ChanM
     ch = _ChanM(1)
     ch.items.append("occupant")
-    fields = prog.struct_fields(SCA)
-    vals = {"sca_stop_mailbox": Opaque("mailbox"), "sca_handle_id": 7, "pipe_sender": Agg("{chan.tx}", [ch]), "pipe_write_id_to_sca": 3, "sndtimeo": sndtimeo}
-    iface = Ref(Cell(Agg(SCA, [vals[f] for f in fields]), "iface"), ())
+    ty = conn or SCA
+    if ty == SCA:
+        fields = prog.struct_fields(SCA)
+        vals = {"sca_stop_mailbox": Opaque("mailbox"), "sca_handle_id": 7, "pipe_sender": Agg("{chan.tx}", [ch]), "pipe_write_id_to_sca": 3, "sndtimeo": sndtimeo}
+    else:
+        fields = prog.struct_fields(ty, features=("ipc", "inproc", "plain", "io-uring"))
+        vals = {"fd": 5, "egress_tx": Agg("{chan.tx}", [ch]), "event_fd": Opaque("eventfd"), "worker_asleep": Opaque("flag"), "work_signal_gen": Opaque("gen"), "sndtimeo": sndtimeo}
+        sw = prog.resolve_method("", ty, "signal_worker", None)
+        if sw:
+            h.it.hooks[sw] = lambda it, a, d, f: UNIT          # waking the worker thread: no effect on the result
+    iface = Ref(Cell(Agg(ty, [vals.get(f, Opaque(f)) for f in fields]), "iface"), ())
     armed = []
     def timeout_fn(it, args, dty, func):
         armed.append(args[0])
@@ -55,15 +72,16 @@ def sca_send_timeouts(h):
         return NotImplemented
     h.it.extern = extern
     h.panic_role = "c14.sca-send"
-    op = h.choose(3, "operation")                   # 0 send_message, 1 send_multipart, 2 send_multipart_owned
-    name = ["send_message", "send_multipart", "send_multipart_owned"][op]
+    ops = ["send_message", "send_multipart", "send_multipart_owned"] if ty == SCA else ["send_multipart", "send_multipart_owned"]
+    name = ops[h.choose(len(ops), "operation")]
+    op = ["send_message", "send_multipart", "send_multipart_owned"].index(name)
     if op == 0:
         arg = h.method("message::msg::Msg", "from_vec", Seq("vec", [0x55]))
     else:
         fb = Ref(Cell(h.method("message::FrameBatch", "new"), "fb"), ())
         h.method("message::FrameBatch", "push", fb, h.method("message::msg::Msg", "from_vec", Seq("vec", [0x55])))
         arg = fb.load()
-    f = Fut(h, SCA, name, [iface, arg], trait=TRAIT)
+    f = Fut(h, ty, name, [iface, arg], trait=TRAIT)
     r = f.poll()
     ev = prog.enum_variants("error::ZmqError")
     def errname(res):
